@@ -109,7 +109,11 @@ def gen_enum(rng, pkg, name, opts):
             pool = pool[:3] + TRICKY_STR_VALUES
         elif opts.get("literal_unsafe_enum_values") and rng.random() < opts["literal_unsafe_enum_values"]:
             pool = pool[:2] + LITERAL_UNSAFE_VALUES
-        for i, v in enumerate(rng.sample(pool, min(n, len(pool)))):
+        vals = rng.sample(pool, min(n, len(pool)))
+        if opts.get("empty_enum_value") and len(vals) >= 2 and "" not in vals and rng.random() < opts["empty_enum_value"]:
+            # the usual "unset / none" member: a declared constant whose value is the empty string
+            vals[rng.randrange(len(vals))] = ""
+        for i, v in enumerate(vals):
             consts.append(["%s%s%d" % (name, rng.choice(["A", "Z", "M"]), i), json.dumps(v), v])
     elif base == "bool":
         for i, v in enumerate(rng.sample(["true", "false"], min(n, 2))):
@@ -457,6 +461,33 @@ def rename_type(u, key, new):
             r["ret"] = texpr_rename(r["ret"], key, new)
         if r["err"] and tuple(r["err"]) == tuple(key):
             r["err"] = [key[0], new]
+    return v
+
+
+def used_by_routes(u, key):
+    """The declaration is named by a parameter, a result or the error type of a route."""
+    key = tuple(key)
+    for r in all_routes(u):
+        if any(key in texpr_refs(p["type"]) for p in r["params"]) or (r["ret"] and key in texpr_refs(r["ret"])) \
+                or (r["err"] and tuple(r["err"]) == key):
+            return True
+    return False
+
+
+def remove_type(u, key):
+    """A copy of the universe without the declaration key = (pkg, name): the fields (embedded ones included)
+    and alias right-hand sides that mention it go with it.  None when a route or an alias uses the type (the
+    edit would not be local to the declarations)."""
+    key = tuple(key)
+    if used_by_routes(u, key):
+        return None
+    v = copy.deepcopy(u)
+    for d in v["decls"]:
+        if d["kind"] == "alias" and key in texpr_refs(d["rhs"]):
+            return None
+        if d["kind"] == "struct":
+            d["fields"] = [f for f in d["fields"] if key not in texpr_refs(f["type"])]
+    v["decls"] = [d for d in v["decls"] if (d["pkg"], d["name"]) != key]
     return v
 
 
@@ -990,6 +1021,114 @@ def doc_term(spec):
 
 def doc_term_opt(spec):
     return "None" if spec is None else "(Some %s)" % doc_term(spec)
+
+
+# ------------------------------------------------------------------ JSON shape of an emitted document
+#
+# The abstract document is typed (a security requirement is a scheme name with a LIST of scope names, a
+# required list is a LIST of names, ...): a member of the written file whose JSON value has another kind
+# (null, a string, an object where an array has to stand) has no abstract counterpart.  The projection
+# above reads such members leniently (`x or []`); the rules of the OpenAPI schema about the KIND of each
+# member are checked here on the raw JSON, one text per offending member.
+
+def _is_str_list(x):
+    return isinstance(x, list) and all(isinstance(y, str) for y in x)
+
+
+def _security_shape(where, secu, errs):
+    """`security`: an array of Security Requirement Objects, each mapping a scheme name to an ARRAY of
+    scope names (empty for schemes without scopes)."""
+    if not isinstance(secu, list):
+        errs.append("%s: security is %s, not an array of requirement objects" % (where, json.dumps(secu)))
+        return
+    for i, req in enumerate(secu):
+        if not isinstance(req, dict):
+            errs.append("%s: security[%d] is %s, not an object" % (where, i, json.dumps(req)))
+            continue
+        for n in sorted(req):
+            if not _is_str_list(req[n]):
+                errs.append("%s: security[%d].%s is %s - a Security Requirement Object maps each scheme to an "
+                            "array of scope names" % (where, i, n, json.dumps(req[n])))
+
+
+def _schema_shape(where, sch, errs, depth=0):
+    if not isinstance(sch, dict) or depth > 6:
+        return
+    for key in ("required",):
+        if key in sch and not _is_str_list(sch[key]):
+            errs.append("%s: %s is %s, not an array of names" % (where, key, json.dumps(sch[key])))
+    for key in ("enum", "allOf"):
+        if key in sch and not isinstance(sch[key], list):
+            errs.append("%s: %s is %s, not an array" % (where, key, json.dumps(sch[key])))
+    if "properties" in sch and not isinstance(sch["properties"], dict):
+        errs.append("%s: properties is %s, not an object" % (where, json.dumps(sch["properties"])))
+    for k, v in (sch.get("properties") if isinstance(sch.get("properties"), dict) else {}).items():
+        _schema_shape("%s.properties.%s" % (where, k), v, errs, depth + 1)
+    for k in ("items", "additionalProperties"):
+        _schema_shape("%s.%s" % (where, k), sch.get(k), errs, depth + 1)
+    for i, v in enumerate(sch["allOf"] if isinstance(sch.get("allOf"), list) else []):
+        _schema_shape("%s.allOf[%d]" % (where, i), v, errs, depth + 1)
+
+
+def shape_errors(spec):
+    """Members of an emitted document whose JSON kind is not the one the OpenAPI schema prescribes."""
+    errs = []
+    if not isinstance(spec, dict):
+        return ["the document is not a JSON object"]
+    if "security" in spec:
+        _security_shape("document", spec["security"], errs)
+    if "servers" in spec and not isinstance(spec["servers"], list):
+        errs.append("servers is %s, not an array" % json.dumps(spec["servers"]))
+    if "tags" in spec and not isinstance(spec["tags"], list):
+        errs.append("tags is %s, not an array" % json.dumps(spec["tags"]))
+    paths = spec.get("paths")
+    if paths is not None and not isinstance(paths, dict):
+        errs.append("paths is %s, not an object" % json.dumps(paths)[:80])
+        paths = {}
+    for path, item in sorted((paths or {}).items()):
+        if not isinstance(item, dict):
+            errs.append("paths.%s is %s, not an object" % (path, json.dumps(item)))
+            continue
+        for verb in VERB_KEYS:
+            if verb not in item:
+                continue
+            op = item[verb]
+            where = "%s %s" % (verb, path)
+            if not isinstance(op, dict):
+                errs.append("%s is %s, not an operation object" % (where, json.dumps(op)))
+                continue
+            if "security" in op:
+                _security_shape(where, op["security"], errs)
+            if "tags" in op and not _is_str_list(op["tags"]):
+                errs.append("%s: tags is %s, not an array of names" % (where, json.dumps(op["tags"])))
+            if "parameters" in op and not isinstance(op["parameters"], list):
+                errs.append("%s: parameters is %s, not an array" % (where, json.dumps(op["parameters"])))
+            for i, pr in enumerate(op["parameters"] if isinstance(op.get("parameters"), list) else []):
+                if not isinstance(pr, dict):
+                    errs.append("%s: parameters[%d] is %s, not an object" % (where, i, json.dumps(pr)))
+                    continue
+                _schema_shape("%s: parameters[%d].schema" % (where, i), pr.get("schema"), errs)
+            if not isinstance(op.get("responses"), dict):
+                errs.append("%s: responses is %s, not an object" % (where, json.dumps(op.get("responses"))))
+            for code, r in sorted((op.get("responses") if isinstance(op.get("responses"), dict) else {}).items()):
+                if not isinstance(r, dict):
+                    errs.append("%s: responses.%s is %s, not an object" % (where, code, json.dumps(r)))
+                    continue
+                for mt, c in (r.get("content") if isinstance(r.get("content"), dict) else {}).items():
+                    _schema_shape("%s: responses.%s.%s.schema" % (where, code, mt), (c or {}).get("schema"), errs)
+            rb = op.get("requestBody")
+            if isinstance(rb, dict):
+                for mt, c in (rb.get("content") if isinstance(rb.get("content"), dict) else {}).items():
+                    _schema_shape("%s: requestBody.%s.schema" % (where, mt), (c or {}).get("schema"), errs)
+    comps = spec.get("components")
+    if comps is not None and not isinstance(comps, dict):
+        errs.append("components is %s, not an object" % json.dumps(comps)[:80])
+        comps = {}
+    for n, sch in sorted(((comps or {}).get("schemas") or {}).items()):
+        if not isinstance(sch, dict):
+            errs.append("components.schemas.%s is %s, not a schema object" % (n, json.dumps(sch)))
+        _schema_shape("components.schemas.%s" % n, sch, errs)
+    return errs
 
 
 # ------------------------------------------------------------------ shrinking
